@@ -23,31 +23,44 @@ open GitAi GitAi.CheckpointExits
     Submodule and bare roots are never answers. -/
 theorem routing_exact (fs : FS) (hwf : fs.WF = true) (file : RawPath) (boundary : Option RawPath)
     (b : Option Dir) (hb : boundary.map (canonOr fs) = b.map asRaw)
+    (hlen : rawLen file ≤ maxSearchablePathBytes)
     (d : Dir) (hstart : resolve fs (startDir fs file) = some d) (hd : dirOK fs d) (r : Dir) :
     findRepoForFile fs file boundary = some r ↔ Innermost fs b d r := by
   unfold findRepoForFile
-  simp only [canonOr, hstart, hb, asRaw_length]
+  have hnot : ¬ rawLen file > maxSearchablePathBytes := by omega
+  simp only [hnot, ↓reduceIte, canonOr, hstart, hb, asRaw_length]
   exact walk_canon fs hwf b (d.length + 1) d rfl hd r
 
 /-- paths under no root are orphans (same hypotheses): `none` exactly when no work-tree root
     inside the boundary contains the directory. -/
 theorem routing_orphan (fs : FS) (hwf : fs.WF = true) (file : RawPath) (boundary : Option RawPath)
     (b : Option Dir) (hb : boundary.map (canonOr fs) = b.map asRaw)
+    (hlen : rawLen file ≤ maxSearchablePathBytes)
     (d : Dir) (hstart : resolve fs (startDir fs file) = some d) (hd : dirOK fs d) :
     findRepoForFile fs file boundary = none ↔ ¬ ∃ r, Innermost fs b d r := by
   constructor
   · intro h ⟨r, hr⟩
-    rw [(routing_exact fs hwf file boundary b hb d hstart hd r).2 hr] at h
+    rw [(routing_exact fs hwf file boundary b hb hlen d hstart hd r).2 hr] at h
     cases h
   · intro h
     cases hres : findRepoForFile fs file boundary with
     | none => rfl
-    | some r => exact absurd ⟨r, (routing_exact fs hwf file boundary b hb d hstart hd r).1 hres⟩ h
+    | some r => exact absurd ⟨r, (routing_exact fs hwf file boundary b hb hlen d hstart hd r).1 hres⟩ h
+
+/-- the excluded region of `hlen`: a path text longer than every platform's limit is an orphan
+    by decision of the code (since the second `fix:` commit; before it the walk was quadratic
+    in the path length and a 1 MiB path in a hook payload kept the hook busy for 40 s) -/
+theorem too_long_is_orphan (fs : FS) (file : RawPath) (boundary : Option RawPath)
+    (h : rawLen file > maxSearchablePathBytes) : findRepoForFile fs file boundary = none := by
+  simp [findRepoForFile, h]
 
 /-- in every case (missing directories, `..` through them, …) the answer is a work-tree root -/
 theorem routing_answer_is_root (fs : FS) (file : RawPath) (boundary : Option RawPath) (r : Dir)
-    (h : findRepoForFile fs file boundary = some r) : fs.rootKind r = some .normal :=
-  walk_some_is_root fs _ _ _ r h
+    (h : findRepoForFile fs file boundary = some r) : fs.rootKind r = some .normal := by
+  unfold findRepoForFile at h
+  split at h
+  · cases h
+  · exact walk_some_is_root fs _ _ _ r h
 
 /-- `group_files_by_repository`: the files of each group are exactly those the search assigned
     to the group's root; an orphan is in no group. -/
@@ -84,6 +97,7 @@ example : exFs.WF = true := by decide
 /-- the hypotheses of `routing_exact` are satisfiable (existing file, missing file in an existing dir) -/
 example : resolve exFs (startDir exFs (p (chars% "/a/repo/src/m.rs"))) = some [chars% "a", chars% "repo", chars% "src"] := by decide
 example : resolve exFs (startDir exFs (p (chars% "/a/repo/in/new.txt"))) = some [chars% "a", chars% "repo", chars% "in"] := by decide
+example : rawLen (p (chars% "/a/repo/in/new.txt")) ≤ maxSearchablePathBytes := by decide
 /-- `/a/repo2/f.txt` is NOT routed to `/a/repo`, although "/a/repo" is a string prefix of it -/
 example : stringPrefix [chars% "a", chars% "repo"] [chars% "a", chars% "repo2", chars% "f.txt"] = true := by decide
 example : findRepoForFile exFs (p (chars% "/a/repo2/f.txt")) none = none := by decide
@@ -522,6 +536,7 @@ end GitAi.Routing
 
 #print axioms GitAi.Routing.routing_exact
 #print axioms GitAi.Routing.routing_orphan
+#print axioms GitAi.Routing.too_long_is_orphan
 #print axioms GitAi.Routing.routing_answer_is_root
 #print axioms GitAi.Routing.group_assignment
 #print axioms GitAi.Routing.orphan_in_no_group
